@@ -118,12 +118,13 @@ class Pipeline:
             raise BuildError('clang failed on %s:\n%s' % (src, r['err'][-4000:]))
         return out
 
-    def tu_ll(self, tu, stdmodel, cxxflags):
-        key = ('tu', tu, stdmodel, cxxflags)
+    def tu_ll(self, tu, stdmodel, cxxflags, model_defines=()):
+        # capacities of the bounded std models (VT_*_CAP) must be identical in every TU of a module (layout!)
+        key = ('tu', tu, stdmodel, cxxflags, tuple(model_defines))
         def build():
             h = hashlib.sha1(repr(key).encode()).hexdigest()[:10]
             out = os.path.join(self.work, 'tu_%s_%s.ll' % (os.path.basename(tu).replace('.cpp', ''), h))
-            return self.compile_ll(os.path.join(REPO, tu), out, [], stdmodel, cxxflags)
+            return self.compile_ll(os.path.join(REPO, tu), out, list(model_defines), stdmodel, cxxflags)
         return self.once(key, build)
 
     def module(self, q):
@@ -134,7 +135,8 @@ class Pipeline:
             t0 = time.time()
             hll = self.compile_ll(os.path.join(VT, 'harness', q.harness), os.path.join(d, 'h.ll'),
                                   sorted(q.defines.items()), q.stdmodel, q.cxxflags)
-            tus = [self.tu_ll(t, q.stdmodel, q.cxxflags) for t in q.tus]
+            mdefs = tuple(sorted((k, v) for k, v in q.defines.items() if k.startswith('VT_') and k.endswith('_CAP')))
+            tus = [self.tu_ll(t, q.stdmodel, q.cxxflags, mdefs) for t in q.tus]
             entries = sorted(set(re.findall(r'^define [^@]*@(harness_\w+)\(', open(hll).read(), re.M)))
             if not entries: raise BuildError('no harness_* entry in ' + q.harness)
             overridden = []
